@@ -177,6 +177,14 @@ def _param_table():
                 return
         raise ValueError('rejected every time')
     add('2d: an unknown burst_method in a shared dict, call repeated with the same dict', retry_invalid_dict, 'ValueError')
+    # an EMPTY option list is a list of the wrong length (not 'no options'), and an unknown progress value is refused on every route of the 3-D function
+    for ax in (0, None):
+        add('2d empty option list axis=%r' % (ax,), lambda ax=ax: compute_features_2d(s2, fs, fr, [], axis=ax, n_jobs=1), 'ValueError')
+    for ax in (0, 1, (0, 1)):
+        add('3d empty option list axis=%r' % (ax,), lambda ax=ax: compute_features_3d(s22, fs, fr, [], axis=ax, n_jobs=1), 'ValueError')
+        add('3d progress=bogus axis=%r' % (ax,), lambda ax=ax: compute_features_3d(s22, fs, fr, {'threshold_kwargs': {}}, axis=ax, n_jobs=1, progress='tdqm'), 'ValueError')
+        add('BycycleGroup 3d progress=bogus axis=%r' % (ax,), lambda ax=ax: BycycleGroup(thresholds={}).fit(s22, fs, fr, axis=ax, n_jobs=1, progress='tdqm'), 'ValueError')
+    add('2d progress=bogus axis=None', lambda: compute_features_2d(s2, fs, fr, {'threshold_kwargs': {}}, axis=None, n_jobs=1, progress='tdqm'), 'ValueError')
     def refit_invalid():
         bm = Bycycle(burst_method='amp', thresholds={'burst_fraction_threshold': 0.8, 'min_n_cycles': 3})
         bm.fit(sig, fs, fr); bm.thresholds['min_n_cycles'] = -2; bm.fit(sig, fs, fr)
